@@ -558,6 +558,10 @@ impl Generator {
             if let Some(s) = gen_surgery_gpos(rng, info) {
                 t.surgery.push(s);
             }
+        } else if rng.pct(12) && info.container == Container::Sfnt {
+            if let Some(s) = gen_relocate(rng, info) {
+                t.surgery.push(s);
+            }
         }
         if rng.pct(30) {
             let mut allowed: Vec<&str> = [
@@ -1114,6 +1118,34 @@ fn gen_surgery(rng: &mut Rng, info: &FontInfo) -> Option<Surgery> {
         lookups,
         min,
         max,
+    })
+}
+
+/// Extension relocation of GSUB (mostly) or GPOS with two lookups that have a Coverage at +2.
+fn gen_relocate(rng: &mut Rng, info: &FontInfo) -> Option<Surgery> {
+    let table = if rng.pct(75) { "GSUB" } else { "GPOS" };
+    let d = info.disk.tables.get(&crate::trace::tag_from_str(table))?.clone();
+    let lookups = surgery::lookup_list(&d)?;
+    let ext: u16 = if table == "GPOS" { 9 } else { 7 };
+    let usable: Vec<usize> = lookups
+        .iter()
+        .enumerate()
+        .filter(|(_, (ty, _, _, subs))| *ty != ext && !subs.is_empty())
+        .map(|(i, _)| i)
+        .collect();
+    if usable.len() < 2 {
+        return None;
+    }
+    let a = usable[rng.usize_below(usable.len())];
+    let b = usable[rng.usize_below(usable.len())];
+    if a == b {
+        return None;
+    }
+    surgery::extension_relocate(&d, table == "GPOS", a, b)?;
+    Some(Surgery::ExtensionRelocate {
+        table: table.to_string(),
+        a: a as u16,
+        b: b as u16,
     })
 }
 
